@@ -341,13 +341,14 @@ theorem simplify_agrees_typed (s : Simplify.Simplifier α) :
   ⟨fun _ => rfl, fun _ => rfl, fun _ _ => rfl, fun _ => rfl, fun _ => rfl, fun _ => rfl, fun _ => rfl,
     fun _ => rfl⟩
 
-/-- (c) A collection is simplified member by member, first to last, every member kept in its place
-    (a member that simplified to nothing stays as a nil member); a collection without members becomes
-    a nil interface. -/
+/-- (c) A collection is simplified member by member, first to last; a member that simplified to nothing
+    (a nil interface) is DROPPED, the others keep their order; a collection none of whose members is
+    left — in particular one without members — becomes a nil interface, never an empty collection. -/
 theorem simplify_collection (s : Simplify.Simplifier α) (gs : List (Geom α)) :
     Simplify.simplifyG s (.collection gs) =
       match resMapM (Simplify.simplifyG s) gs with
-      | .ok l => if l.length = 0 then .ok .nil else .ok (.coll l)
+      | .ok l =>
+        if (l.filter fun g => !g.isNil).length = 0 then .ok .nil else .ok (.coll (l.filter fun g => !g.isNil))
       | .err e => .err e
       | .panic w => .panic w := simplify_collection' s gs
 
@@ -749,9 +750,12 @@ Concrete degenerate values of the quantifier through the models: a ring-less pol
 multi-polygon inside a collection, a zero-vertex ring, a one-vertex line, typed nils. -/
 
 example :
-    -- simplify: the ring-less polygon is dropped, the emptied multi-polygon becomes a nil member
+    -- simplify: the ring-less polygon is dropped, the emptied multi-polygon simplifies to nothing and is
+    -- dropped from the collection; a collection all of whose members vanish is a nil interface
     Simplify.simplifyG (Simplify.dpS (1 : Int)) (.collection [.multiPolygon [[]], .lineString [⟨0, 0⟩]]) =
-      .ok (.coll [.nil, .geom (.lineString [⟨0, 0⟩])]) := rfl
+      .ok (.coll [.geom (.lineString [⟨0, 0⟩])]) ∧
+    Simplify.simplifyG (Simplify.dpS (1 : Int)) (.collection [.multiPolygon [[]], .lineString [], .collection []]) =
+      .ok .nil := ⟨rfl, rfl⟩
 
 example :
     -- equal: same members in order; a ring is not its one-ring polygon
